@@ -2,6 +2,8 @@ import DimodProofs.Vars
 import DimodProofs.VarsInv
 import DimodProofs.VarsRelabel
 import DimodProofs.VarsSteps
+import DimodProofs.VarsMore
+import DimodProofs.VarsWhole
 
 /-! # C13 — Variables is an order-preserving bijection between labels and indices
 
@@ -190,6 +192,148 @@ theorem relabel_dupkey_counterexample :
       LSpec.step s.abs (.relabel m) = ([.str "c"], true) := by
   decide +kernel
 
+/-! ## round 6: whole mappings, restore, the extended history, every reader, source-extracted rules
+
+`DimodModel/VarsMore.lean` adds `_extend`, `copy`, the pickle round trip, `__iter__`, `__len__`,
+`__contains__`, `__getitem__(slice)`, `__eq__`, the constructor and the auto-label rule written over
+`Generated/VarsRules.lean` (regenerated from `cyvariables.pyx` / `utilities.py` on every run). -/
+
+open VState (Op2)
+
+/-- **whole mapping.**  For ANY mapping with distinct keys (partial, swapping, cyclic, chains through labels
+    that are not variables, absent keys), `_relabel` as coded (conflict check of `iter_safe_relabels`, one- or
+    two-phase plan with intermediate labels) does exactly one of two things: it returns, the state is sound and
+    iteration yields `[mapping.get(l, l) for l in labels]`; or it raises, the object is untouched, and the
+    mapping is a rejected one (two keys share a target, or a target is an existing label that is not a key). -/
+theorem relabel_whole_mapping (s : VState) (h : s.Inv) (m : List (Label × Label)) (hk : (m.map Prod.fst).Nodup) :
+    (∃ s', s.relabel m = some s' ∧ s.step (.relabel m) = (s', true) ∧ s'.Inv ∧
+        s'.abs = s.abs.map (fun l => (LSpec.lookup m l).getD l) ∧ ¬ VState.Rejected m s.abs) ∨
+    (s.relabel m = none ∧ s.step (.relabel m) = (s, false) ∧ VState.Rejected m s.abs) :=
+  VState.relabel_total s h m hk
+
+/-- a relabel that would merge two labels is rejected without changing anything -/
+theorem relabel_merge_rejected (s : VState) (h : s.Inv) (m : List (Label × Label)) (hk : (m.map Prod.fst).Nodup)
+    (hmerge : ¬ (s.abs.map (fun l => (LSpec.lookup m l).getD l)).Nodup) :
+    s.relabel m = none ∧ s.step (.relabel m) = (s, false) :=
+  VState.relabel_rejects_merge s h m hk hmerge
+
+/-- `_relabel` raises exactly for the rejected mappings -/
+theorem relabel_raises_iff (s : VState) (h : s.Inv) (m : List (Label × Label)) (hk : (m.map Prod.fst).Nodup) :
+    s.relabel m = none ↔ VState.Rejected m s.abs :=
+  VState.relabel_none_iff s h m hk
+
+/-- the rejection test of the code is coarser than "would merge": `{"zz": "a"}` on `[2, "a", 0, 3]` is rejected
+    although the key is absent and nothing would be merged (the reference list of the harness rejects it too) -/
+example : wS.Inv ∧ ([(Label.str "zz", Label.str "a")].map Prod.fst).Nodup ∧
+    wS.relabel [(.str "zz", .str "a")] = none ∧
+    (wS.abs.map (fun l => (LSpec.lookup [(Label.str "zz", Label.str "a")] l).getD l)).Nodup :=
+  ⟨wS_inv, by decide +kernel⟩
+
+/-- a 3-cycle through an absent label plus an absent key: accepted -/
+example : wS.Inv ∧ ¬ VState.Rejected [(Label.int 2, Label.str "a"), (.str "a", .int 0), (.int 0, .int 2), (.int 9, .int 11)] wS.abs := by
+  refine ⟨wS_inv, ?_⟩
+  rw [← VState.relabelOk_false_iff _ (by decide +kernel)]
+  decide +kernel
+
+/-- `_relabel_as_integers` leaves `range(n)` and returns the mapping that restores the labels -/
+theorem relabelAsIntegers_restore (s : VState) (h : s.Inv) :
+    s.relabelAsIntegers.1.Inv ∧
+    s.relabelAsIntegers.1.abs = (List.range s.abs.length).map (fun i => Label.int (i : Nat)) ∧
+    ∃ s2, s.relabelAsIntegers.1.relabel (VState.restoreMap s.relabelAsIntegers.2) = some s2 ∧ s2.Inv ∧ s2.abs = s.abs :=
+  VState.relabelAsIntegers_restore s h
+
+/-- the auto-label rule *as extracted from the source* (`Generated.VarsRules`) yields the documented label,
+    which is not yet present -/
+theorem autoLabel_rule_from_source (s : VState) (h : s.Inv) :
+    s.autoLabelG = LSpec.autoLabel s.abs ∧ s.autoLabelG ∉ s.abs := by
+  rw [VState.autoLabelG_eq_autoLabel]
+  exact ⟨VState.autoLabel_eq s h, VState.autoLabel_fresh s h⟩
+
+/-- the exception class of every rejected call is the one a Python list raises for the same call
+    (classes read from the source) -/
+theorem errClass_matches_list (op : Op2) : VState.errClass op = LSpec.errClass op := by
+  cases op with
+  | base op => cases op <;> rfl
+  | _ => rfl
+
+theorem reader_errClass : VState.errAt = .index ∧ VState.errIndex = .value := ⟨rfl, rfl⟩
+
+/-- `_extend`: the fold of appends, a raising call keeps the appended prefix -/
+theorem extend_refines (s : VState) (h : s.Inv) (vs : List (Option Label)) (p : Bool) :
+    (s.extend vs p).1.Inv ∧ ((s.extend vs p).1.abs, (s.extend vs p).2) = LSpec.extend s.abs vs p :=
+  VState.extend_refines vs p s h
+
+/-- `copy()` and the pickle round trip give a sound object with the same labels in the same order -/
+theorem copy_pickle_refine (s : VState) (h : s.Inv) :
+    (s.copy.Inv ∧ s.copy.abs = s.abs) ∧ (s.pickleRoundTrip.Inv ∧ s.pickleRoundTrip.abs = s.abs) ∧
+      VState.setState s.reduce = s :=
+  ⟨VState.copy_spec s h, VState.pickle_spec s h, rfl⟩
+
+/-- `Variables(iterable)` / `Variables(range(n))` -/
+theorem constructor_refines (vs : List Label) (n : Nat) :
+    ((VState.ofList vs).Inv ∧ (VState.ofList vs).abs = (LSpec.extend [] (vs.map some) true).1 ∧
+      ∀ x, x ∈ (VState.ofList vs).abs ↔ x ∈ vs) ∧
+    ((VState.ofRange n).Inv ∧ (VState.ofRange n).abs = (List.range n).map fun i => Label.int (i : Nat)) :=
+  ⟨⟨(VState.ofList_spec vs).1, (VState.ofList_spec vs).2, VState.ofList_mem vs⟩, VState.ofRange_spec n⟩
+
+/-- `__iter__` (both branches), `__len__`, `__contains__` are those of the list -/
+theorem readers_are_list (s : VState) (h : s.Inv) :
+    s.iter = s.abs ∧ s.len = s.abs.length ∧ ∀ v, (s.contains v = true ↔ v ∈ s.abs) :=
+  ⟨VState.iter_eq_abs s h, VState.len_eq s, VState.contains_iff s h⟩
+
+/-- `==`: with a sequence it is list equality (ordered), with a set it is equality of the element sets, else False -/
+theorem eq_is_list_eq (s : VState) (h : s.Inv) (o : List Label) :
+    (s.eqOther (.seq o) = true ↔ s.abs = o) ∧ (s.eqOther (.set o) = true ↔ ∀ x, x ∈ s.abs ↔ x ∈ o) ∧
+      s.eqOther .other = false :=
+  ⟨VState.eqOther_seq s h o, VState.eqOther_set s h o, rfl⟩
+
+/-- `v[slice]` is Python list slicing (`slice.indices`, then the selected positions in order); the result is a
+    sound object; the only rejected slices are those with a zero step -/
+theorem slice_refines (s : VState) (h : s.Inv) (sl : SSM.PySlice) :
+    (s.getSlice sl).map VState.abs = LSpec.slice s.abs sl ∧ (∀ s', s.getSlice sl = some s' → s'.Inv) ∧
+      (s.getSlice sl = none ↔ sl.step = some 0) := by
+  refine ⟨(VState.getSlice_refines s h sl).1, (VState.getSlice_refines s h sl).2, ?_⟩
+  have h1 := (VState.getSlice_refines s h sl).1
+  constructor
+  · intro hn
+    rw [hn] at h1
+    simp only [Option.map_none, LSpec.slice, SSM.sliceIndices, SSM.sliceBounds] at h1
+    cases hs : sl.step with
+    | none => simp [hs] at h1
+    | some c =>
+      by_cases hc : c = 0
+      · rw [hc]
+      · simp [hs, hc] at h1
+  · intro hs
+    cases hg : s.getSlice sl with
+    | none => rfl
+    | some s' =>
+      rw [hg] at h1
+      simp [LSpec.slice, SSM.sliceIndices, SSM.sliceBounds, hs] at h1
+
+example : wS.Inv ∧ (wS.getSlice ⟨some (-1), none, some (-2)⟩).map VState.abs = some [.int 3, .str "a"] ∧
+    wS.getSlice ⟨none, none, some 0⟩ = none := ⟨wS_inv, by decide +kernel⟩
+
+/-- every operation of the extended alphabet (mutators, `_extend`, copy, pickle, slicing) preserves the invariant
+    and refines the list specification, ok/raise flag included -/
+theorem step2_refines (s : VState) (h : s.Inv) (op : Op2) (hop : op.WF) :
+    (s.step2 op).1.Inv ∧ ((s.step2 op).1.abs, (s.step2 op).2) = LSpec.step2 s.abs op :=
+  VState.step2_refines s h op hop
+
+/-- **history theorem**: any finite sequence of append / auto-append / extend / pop / remove / relabel /
+    relabel-as-integers / clear / copy / pickle round trip / slice, from the empty object: the invariant holds at
+    the end, iteration yields the specification list, and every call returned or raised as the list says -/
+theorem history2_refines (ops : List Op2) (hwf : ∀ op ∈ ops, op.WF) :
+    let r := ops.foldl VState.bothStep2 (VState.empty, [], [])
+    r.1.Inv ∧ r.1.abs = r.2.1 ∧ ∀ p ∈ r.2.2, p.1 = p.2 := by
+  have := VState.history2_refines_from VState.empty VState.inv_empty ops hwf
+  rw [VState.abs_empty] at this
+  exact this
+
+example : ∀ op ∈ [Op2.base (.append none false), .extend [some (.str "a"), none, some (.int 0)] true, .copy,
+    .base (.relabel [(.int 0, .str "a"), (.str "a", .int 0)]), .pickle, .slice ⟨none, none, some (-1)⟩,
+    .base (.remove (.str "a")), .base .relabelInts], op.WF := by decide +kernel
+
 end C13
 
 section Axioms
@@ -205,4 +349,11 @@ section Axioms
 #print axioms C13.history_refines_flags
 #print axioms C13.relabel_dupkey_counterexample
 #print axioms C13.wS_inv
+#print axioms C13.relabel_whole_mapping
+#print axioms C13.relabel_merge_rejected
+#print axioms C13.relabelAsIntegers_restore
+#print axioms C13.autoLabel_rule_from_source
+#print axioms C13.slice_refines
+#print axioms C13.step2_refines
+#print axioms C13.history2_refines
 end Axioms
